@@ -41,9 +41,12 @@ const (
 	KChoose
 	KSleep
 	KOther
+	KAtomicLoad
+	KMapRead
+	KSpawn
 )
 
-var kindNames = [...]string{"start", "lock", "rlock", "wlockwait", "atomic", "wgadd", "wgwait", "once", "pool", "recv", "send", "close", "map", "cread", "cwrite", "cclose", "accept", "join", "yield", "quiesce", "gate", "choose", "sleep", "other"}
+var kindNames = [...]string{"start", "lock", "rlock", "wlockwait", "atomic", "wgadd", "wgwait", "once", "pool", "recv", "send", "close", "map", "cread", "cwrite", "cclose", "accept", "join", "yield", "quiesce", "gate", "choose", "sleep", "other", "aload", "mapread", "spawn"}
 
 func (k Kind) String() string { return kindNames[k] }
 
@@ -58,6 +61,9 @@ type Thread struct {
 	started bool
 	fn      func()
 	daemon  bool
+	h       uint64 // hash of this thread's causal history (happens-before signature)
+	sid     uint64 // stable identity: hash of the spawn event
+	nspawn  uint64
 }
 
 // Done reports whether the thread has finished.
@@ -71,6 +77,8 @@ type ChoicePoint struct {
 	Chosen     int
 	Tids       []int // thread ids per alternative (scheduling points), nil for env
 	Kinds      []Kind
+	Sids       []uint64 // stable thread identities per alternative
+	Sig        uint64   // happens-before signature of the state in which the choice is made
 }
 
 // Verdict values.
@@ -107,6 +115,100 @@ type Exec struct {
 	resets   []func()
 	Data     map[string]interface{}
 	TraceLog []string
+
+	objName  map[interface{}]uint64
+	objLast  map[uint64]uint64
+	objReads map[uint64]uint64
+	keep     []interface{}
+}
+
+func mix(a, b uint64) uint64 {
+	x := a*0x9e3779b97f4a7c15 ^ (b + 0x7f4a7c15ca11ab1e + (a << 6) + (a >> 2))
+	x ^= x >> 31
+	x *= 0xbf58476d1ce4e5b9
+	x ^= x >> 29
+	x *= 0x94d049bb133111eb
+	x ^= x >> 32
+	return x
+}
+
+// Multi is an operation's object list when it touches more than one shared object.
+type Multi []interface{}
+
+func isRead(k Kind) bool {
+	return k == KRLock || k == KAtomicLoad || k == KMapRead || k == KWgWait
+}
+
+// event folds the operation that thread t is about to execute into the
+// happens-before signature: every operation depends on the previous
+// operation of its thread and on the conflicting operations on its object
+// (all earlier writes; for a write also all earlier reads).
+func (x *Exec) event(t *Thread, kind Kind, obj interface{}) {
+	h := mix(t.h, uint64(kind)+1)
+	switch kind {
+	case KJoin:
+		if jt, ok := obj.(*Thread); ok {
+			h = mix(h, jt.h)
+		}
+		t.h = h
+		return
+	case KQuiesce:
+		for _, o := range x.threads {
+			if o != t {
+				h = mix(h, o.h)
+			}
+		}
+		t.h = h
+		return
+	}
+	if obj == nil {
+		t.h = h
+		return
+	}
+	if m, ok := obj.(Multi); ok {
+		for _, o := range m {
+			t.h = h
+			x.event1(t, kind, o)
+			h = t.h
+		}
+		return
+	}
+	t.h = h
+	x.event1(t, kind, obj)
+}
+
+func (x *Exec) event1(t *Thread, kind Kind, obj interface{}) {
+	h := t.h
+	name, ok := x.objName[obj]
+	if !ok {
+		name = mix(t.h, 0x0b1ec7)
+		x.objName[obj] = name
+	}
+	h = mix(h, x.objLast[name])
+	if isRead(kind) {
+		x.objReads[name] += h // commutative accumulation of concurrent reads
+	} else {
+		h = mix(h, x.objReads[name])
+		x.objReads[name] = 0
+		x.objLast[name] = h
+	}
+	t.h = h
+}
+
+// stateSig is the signature of the current global state (all thread histories + who is running).
+func (x *Exec) stateSig(self *Thread) uint64 {
+	var s uint64
+	for _, t := range x.threads {
+		d := uint64(1)
+		if t.done {
+			d = 2
+		}
+		s += mix(mix(t.sid, t.h), d)
+	}
+	if self != nil {
+		s = mix(s, self.sid)
+	}
+	return s
 }
 
 var cur *Exec // the active execution (nil outside runs)
@@ -198,6 +300,14 @@ func Spawn(name string, fn func()) *Thread {
 		return &Thread{done: true}
 	}
 	t := &Thread{ID: len(x.threads), Name: name, kind: KStart, fn: fn}
+	if p := x.cur; p != nil {
+		p.nspawn++
+		p.h = mix(p.h, uint64(KSpawn)+1)
+		t.sid = mix(p.h, p.nspawn)
+	} else {
+		t.sid = mix(uint64(len(x.threads)), 0x5bd1)
+	}
+	t.h = t.sid
 	x.threads = append(x.threads, t)
 	go x.threadMain(t)
 	return t
@@ -348,10 +458,13 @@ func (x *Exec) schedule(self *Thread) {
 		cp := ChoicePoint{N: len(en), CurEnabled: curEn, Chosen: idx}
 		cp.Tids = make([]int, len(en))
 		cp.Kinds = make([]Kind, len(en))
+		cp.Sids = make([]uint64, len(en))
 		for i, t := range en {
 			cp.Tids[i] = t.ID
 			cp.Kinds[i] = t.kind
+			cp.Sids[i] = t.sid
 		}
+		cp.Sig = x.stateSig(self)
 		x.Choices = append(x.Choices, cp)
 	}
 	next := en[idx]
@@ -395,6 +508,13 @@ func objString(o interface{}) string {
 		return ""
 	case string:
 		return v
+	case *Thread:
+		return v.Name
+	case Multi:
+		if len(v) > 0 {
+			return objString(v[0])
+		}
+		return ""
 	case fmt.Stringer:
 		return v.String()
 	}
@@ -418,6 +538,7 @@ func Point(kind Kind, obj interface{}, en func() bool) {
 	}
 	x.schedule(t)
 	t.en = nil
+	x.event(t, kind, obj)
 }
 
 // Block is Point for operations that must not proceed during teardown
@@ -459,13 +580,14 @@ func Choose(n int, what string) int {
 			x.fail(VDiverge, fmt.Sprintf("replay divergence: env choice %d (%s) wants %d of %d", k, what, idx, n))
 		}
 	}
-	x.Choices = append(x.Choices, ChoicePoint{N: n, Env: true, Chosen: idx})
+	x.Choices = append(x.Choices, ChoicePoint{N: n, Env: true, Chosen: idx, Sig: x.stateSig(x.cur)})
+	x.cur.h = mix(mix(x.cur.h, uint64(KChoose)+1), uint64(idx)*1000003+uint64(n))
 	return idx
 }
 
 // Join blocks (in the model) until t has finished.
 func Join(t *Thread) {
-	Block(KJoin, t.Name, func() bool { return t.done })
+	Block(KJoin, t, func() bool { return t.done })
 }
 
 // Quiesce blocks the caller until no other non-daemon thread is enabled.
@@ -502,9 +624,10 @@ func Run(prefix []int, horizon int, body func()) *Exec {
 	if cur != nil {
 		panic("vsched.Run: nested run")
 	}
-	x := &Exec{prefix: prefix, Horizon: horizon, turn: -1, Data: map[string]interface{}{}}
+	x := &Exec{prefix: prefix, Horizon: horizon, turn: -1, Data: map[string]interface{}{},
+		objName: map[interface{}]uint64{}, objLast: map[uint64]uint64{}, objReads: map[uint64]uint64{}}
 	cur = x
-	t0 := &Thread{ID: 0, Name: "main", kind: KStart, fn: body}
+	t0 := &Thread{ID: 0, Name: "main", kind: KStart, fn: body, sid: 0x1001, h: 0x1001}
 	x.threads = append(x.threads, t0)
 	go x.threadMain(t0)
 	x.cur = t0
